@@ -41,6 +41,9 @@ func (lam *Lambda) Call(s *Scope, args List, depth int) (result Object) {
 	if 0 < len(lam.Doc.Name) {
 		ss.Name = Symbol(lam.Doc.Name)
 	}
+	if need := lam.Doc.requiredCount(); len(args) < need {
+		ErrorPanic(s, depth, "Too few arguments to %s. At least %d expected but got %d.", lam, need, len(args))
+	}
 	mode := reqMode
 	ai := 0
 	var (
